@@ -20,6 +20,17 @@ pub open spec fn flat(bufs: Seq<&[u8]>) -> Seq<u8>
 {
     if bufs.len() == 0 { Seq::empty() } else { flat(bufs.drop_last()) + bufs.last()@ }
 }
+proof fn lemma_flat2_all()
+    ensures forall|b: Seq<&[u8]>| b.len() == 2 ==> #[trigger] flat(b) == b[0]@ + b[1]@
+{
+    assert forall|b: Seq<&[u8]>| b.len() == 2 implies #[trigger] flat(b) == b[0]@ + b[1]@ by {
+        assert(b.drop_last().len() == 1);
+        assert(b.drop_last().drop_last().len() == 0);
+        assert(flat(b.drop_last().drop_last()) =~= Seq::<u8>::empty());
+        assert(flat(b.drop_last()) =~= b[0]@);
+        assert(flat(b) =~= b[0]@ + b[1]@);
+    }
+}
 
 #[verifier::external_body]
 fn hash(algorithm: &str, buffers: Vec<&[u8]>) -> (r: Result<Vec<u8>, String>)
@@ -39,8 +50,13 @@ fn __outl_le_bytes(a: u16) -> (d: [u8; 2])
 { a.to_le_bytes() }
 
 // outlined statement (verbatim text kept in the external body)
+pub uninterp spec fn spec_utf16(s: Seq<char>) -> Seq<u16>;
+pub open spec fn le16s(v: Seq<u16>) -> Seq<u8>
+    decreases v.len()
+{ if v.len() == 0 { Seq::empty() } else { le16s(v.drop_last()) + seq![(v.last() & 0xff) as u8, ((v.last() >> 8) & 0xff) as u8] } }
 #[verifier::external_body]
 fn __outl_pw_utf16(password: &str) -> (v: Vec<u16>)
+    ensures v@ == spec_utf16(password@)
 { password.encode_utf16().collect() }
 
 fn convert_password_to_hash(
@@ -50,22 +66,37 @@ fn convert_password_to_hash(
     spin_count: &usize,
 ) -> (key: Vec<u8>)
     requires hash_algorithm@ == "SHA-512"@, *spin_count <= u32::MAX,
-    ensures true,
+    ensures key@ == iso_hash(salt_value@, le16s(spec_utf16(password@)), *spin_count as nat),
 {
     // Password must be in unicode buffer
     let mut password_buffer: Vec<u8> = Vec::new();
     let v: Vec<u16> = __outl_pw_utf16(password);
-    for a in v {
+    let ghost v0 = v@;
+    for a in it: v
+        invariant
+            it.seq() == v0,
+            password_buffer@ == le16s(v0.take(it.index() as int)),
+    {
+        proof {
+            assert(v0.take(it.index() + 1).drop_last() =~= v0.take(it.index() as int));
+            assert(v0.take(it.index() + 1).last() == a);
+        }
         let d = __outl_le_bytes(a);
         password_buffer.push(d[0]);
         password_buffer.push(d[1]);
     }
 
+    proof { assert(v0.take(v0.len() as int) =~= v0); lemma_flat2_all(); }
     // Generate the initial hash
     let mut key = hash(hash_algorithm, vec![salt_value, &password_buffer]).unwrap();
 
     // Now regenerate until spin count
-    for i in 0..*spin_count {
+    for i in it2: 0..*spin_count
+        invariant
+            hash_algorithm@ == "SHA-512"@, *spin_count <= u32::MAX,
+            key@ == iso_hash(salt_value@, le16s(spec_utf16(password@)), i as nat),
+    {
+        proof { lemma_flat2_all(); }
         let iterator = create_uint32_le_buffer(&(i as u32), None);
         key = hash(hash_algorithm, vec![&key, &iterator]).unwrap();
     }
